@@ -8,6 +8,14 @@ import (
 	"cosmossdk.io/math"
 	sdk "github.com/cosmos/cosmos-sdk/types"
 	ammtypes "github.com/elys-network/elys/x/amm/types"
+	burnerkeeper "github.com/elys-network/elys/x/burner/keeper"
+	burnertypes "github.com/elys-network/elys/x/burner/types"
+	cmkeeper "github.com/elys-network/elys/x/commitment/keeper"
+	eskeeper "github.com/elys-network/elys/x/estaking/keeper"
+	estypes "github.com/elys-network/elys/x/estaking/types"
+	oraclekeeper "github.com/elys-network/elys/x/oracle/keeper"
+	perpkeeper "github.com/elys-network/elys/x/perpetual/keeper"
+	sskeeper "github.com/elys-network/elys/x/stablestake/keeper"
 	atypes "github.com/elys-network/elys/x/assetprofile/types"
 	ctypes "github.com/elys-network/elys/x/commitment/types"
 	llpkeeper "github.com/elys-network/elys/x/leveragelp/keeper"
@@ -111,6 +119,11 @@ func NewWorld(cfg FixtureCfg) *World {
 		app.CommitmentKeeper.SetParams(ctx, p)
 		return nil
 	})
+	w.MustGov("burner epoch", func(ctx sdk.Context) error {
+		_, err := burnerkeeper.NewMsgServerImpl(app.BurnerKeeper).UpdateParams(ctx, &burnertypes.MsgUpdateParams{Authority: gov, Params: burnertypes.Params{EpochIdentifier: "five_minutes"}})
+		return err
+	})
+	applyVariant(w, cfg.Variant)
 	w.mustBlock("vault bond", PlannedTx{Signer: "lp2", Msgs: []sdk.Msg{&sstypes.MsgBond{Creator: lp2.Addr.String(), Amount: math.NewInt(1e12)}}})
 	_ = ctypes.ModuleName
 	_ = perptypes.ModuleName
@@ -124,8 +137,9 @@ func BuildRoot(w *World, root string, lib *OpLib) {
 	case "R0", "":
 		return
 	case "R1":
-		// mid-life: positions of both modules, accrued swap fees, a day elapsed
-		prefix = []string{"perp_open_long_t1", "perp_open_short_t2", "llp_open_t1_x3", "swap_in_p1_usdc_atom_L", "swap_in_p2_elys_usdc_L", "gap_1d", "empty"}
+		// mid-life: positions of both modules, accrued swap fees, a day elapsed, Eden claimed /
+		// committed / vesting, ELYS staked
+		prefix = []string{"perp_open_long_t1", "perp_open_short_t2", "llp_open_t1_x3", "swap_in_p1_usdc_atom_L", "swap_in_p2_elys_usdc_L", "gap_1d", "mc_claim_lp1", "commit_eden_lp1", "vest_eden_lp1", "stake_elys_lp1"}
 	case "R2":
 		// degraded: pool 1 far off target, vault highly utilised, dust positions
 		prefix = []string{"llp_open_t2_x5", "perp_open_long_t1", "swap_in_p1_usdc_atom_XL", "unbond_lp2_L", "perp_open_short_t2_dust", "gap_1h"}
@@ -139,4 +153,111 @@ func BuildRoot(w *World, root string, lib *OpLib) {
 			panic("root " + root + " op " + n + ": " + br.Err)
 		}
 	}
+}
+
+// Variants are configuration changes permitted by validation, applied through the real gov
+// message servers (with the message's ValidateBasic when it has one) at fixture time.
+var AllVariants = []string{"", "mc_lps1", "mc_lps0_stakers1", "mc_stakers_tiny", "es_provider1", "es_provider0", "oracle_min", "vest_blocks0", "perp_extreme", "ss_rates_equal"}
+
+type validator interface{ ValidateBasic() error }
+
+func vb(m sdk.Msg) error {
+	if v, ok := m.(validator); ok {
+		return v.ValidateBasic()
+	}
+	return nil
+}
+
+func applyVariant(w *World, variant string) {
+	if variant == "" {
+		return
+	}
+	w.MustGov(variant, variantGov(w, variant))
+}
+
+// variantGov returns the state change of the named configuration as a gov step.
+func variantGov(w *World, variant string) func(ctx sdk.Context) error {
+	app, gov := w.App, w.Gov
+	switch variant {
+	case "mc_lps1", "mc_lps0_stakers1", "mc_stakers_tiny":
+		return func(ctx sdk.Context) error {
+			p := app.MasterchefKeeper.GetParams(ctx)
+			switch variant {
+			case "mc_lps1":
+				p.RewardPortionForLps, p.RewardPortionForStakers = Dec("1"), Dec("0")
+			case "mc_lps0_stakers1":
+				p.RewardPortionForLps, p.RewardPortionForStakers = Dec("0"), Dec("1")
+			case "mc_stakers_tiny":
+				p.RewardPortionForLps, p.RewardPortionForStakers = Dec("0.1"), Dec("0.01")
+			}
+			m := &mctypes.MsgUpdateParams{Authority: gov, Params: p}
+			if err := vb(m); err != nil {
+				return err
+			}
+			_, err := mckeeper.NewMsgServerImpl(app.MasterchefKeeper).UpdateParams(ctx, m)
+			return err
+		}
+	case "es_provider1", "es_provider0":
+		return func(ctx sdk.Context) error {
+			p := app.EstakingKeeper.GetParams(ctx)
+			if variant == "es_provider1" {
+				p.ProviderStakingRewardsPortion = Dec("1")
+			} else {
+				p.ProviderStakingRewardsPortion = Dec("0")
+			}
+			m := &estypes.MsgUpdateParams{Authority: gov, Params: p}
+			if err := vb(m); err != nil {
+				return err
+			}
+			_, err := eskeeper.NewMsgServerImpl(*app.EstakingKeeper).UpdateParams(ctx, m)
+			return err
+		}
+	case "oracle_min":
+		return func(ctx sdk.Context) error {
+			p := app.OracleKeeper.GetParams(ctx)
+			p.PriceExpiryTime, p.LifeTimeInBlocks = 1, 1
+			m := &oracletypes.MsgUpdateParams{Authority: gov, Params: p}
+			if err := vb(m); err != nil {
+				return err
+			}
+			_, err := oraclekeeper.NewMsgServerImpl(app.OracleKeeper).UpdateParams(ctx, m)
+			return err
+		}
+	case "vest_blocks0":
+		return func(ctx sdk.Context) error {
+			m := &ctypes.MsgUpdateVestingInfo{Authority: gov, BaseDenom: "ueden", VestingDenom: "uelys", NumBlocks: 0, VestNowFactor: 90, NumMaxVestings: 10}
+			if err := vb(m); err != nil {
+				return err
+			}
+			_, err := cmkeeper.NewMsgServerImpl(*app.CommitmentKeeper).UpdateVestingInfo(ctx, m)
+			return err
+		}
+	case "perp_extreme":
+		return func(ctx sdk.Context) error {
+			p := app.PerpetualKeeper.GetParams(ctx)
+			p.BorrowInterestRateMax, p.BorrowInterestRateMin = Dec("5"), Dec("5")
+			p.FixedFundingRate = Dec("10")
+			p.BorrowInterestPaymentFundPercentage = Dec("1")
+			p.HealthGainFactor = Dec("1")
+			m := &perptypes.MsgUpdateParams{Authority: gov, Params: &p}
+			if err := vb(m); err != nil {
+				return err
+			}
+			_, err := perpkeeper.NewMsgServerImpl(*app.PerpetualKeeper).UpdateParams(ctx, m)
+			return err
+		}
+	case "ss_rates_equal":
+		return func(ctx sdk.Context) error {
+			p := app.StablestakeKeeper.GetParams(ctx)
+			p.InterestRateMax, p.InterestRateMin, p.InterestRate = Dec("0"), Dec("0"), Dec("0")
+			p.HealthGainFactor = Dec("0")
+			m := &sstypes.MsgUpdateParams{Authority: gov, Params: &p}
+			if err := vb(m); err != nil {
+				return err
+			}
+			_, err := sskeeper.NewMsgServerImpl(*app.StablestakeKeeper).UpdateParams(ctx, m)
+			return err
+		}
+	}
+	panic("unknown fixture variant " + variant)
 }
